@@ -1,6 +1,7 @@
 package main
 
 import (
+	"regexp"
 	"fmt"
 	"go/types"
 	"sort"
@@ -232,10 +233,10 @@ func c12r2(r *R) {
 			if p.eventIndex(0, "call", eq(`(net/http.Header).Set(`+res+`.Header, "Content-Type", "text/plain; charset=utf-8")`)) < 0 {
 				bad = append(bad, "content type missing")
 			}
-			if p.Mem[res+".ContentLength"] != "(*bytes.Buffer).Len(local:body)" {
+			if stripFrames(p.Mem[res+".ContentLength"]) != "(*bytes.Buffer).Len(local:body)" {
 				bad = append(bad, "ContentLength is "+p.Mem[res+".ContentLength"]+" instead of the body buffer's length")
 			}
-			if !strings.HasPrefix(res, "martian/proxyutil.NewResponse(") || !strings.HasSuffix(res, ", local:body, $1)") {
+			if !strings.HasPrefix(res, "martian/proxyutil.NewResponse(") || !strings.HasSuffix(stripFrames(res), ", local:body, $1)") {
 				bad = append(bad, "response is "+res)
 			}
 			zero := p.hasCond(func(c string) bool {
@@ -515,3 +516,8 @@ func errorHandlerList(r *R, er *ssa.Function) []string {
 	sort.Slice(handlers, func(i, j int) bool { return idx[handlers[i]] < idx[handlers[j]] })
 	return handlers
 }
+
+var frameSuffix = regexp.MustCompile(`(local:\w+(?:#t\d+)?)@\d+`)
+
+// stripFrames removes the activation marks (@n) the path walker gives to locals of functions walked in place.
+func stripFrames(s string) string { return frameSuffix.ReplaceAllString(s, "$1") }
